@@ -809,6 +809,12 @@ func (fc *functionCollector) collectFromNode(node ast.Node) {
 	}
 
 	switch n := node.(type) {
+	case *ast.FunctionCall:
+		// calls reached only through Children() (JOIN conditions, window
+		// specifications, RETURNING, MERGE, grouping sets, ...)
+		if n.Name != "" {
+			fc.functions[n.Name] = true
+		}
 	case *ast.SelectStatement:
 		for _, col := range n.Columns {
 			fc.collectFromExpression(col)
